@@ -126,6 +126,8 @@ func RunSched(p *SchedProg) (violation string, steps int) {
 		return schedStream(p)
 	case "sched-fallback":
 		return schedFallback(p)
+	case "sched-bindswap":
+		return schedBindSwap(p)
 	case "sched-rr":
 		return schedRR(p)
 	case "sched-addr":
@@ -673,6 +675,111 @@ func schedRR(p *SchedProg) (string, int) {
 	}
 	if v == "" && res.Deadlock != "" {
 		v = "C09,C06|deadlock: " + res.Deadlock
+	}
+	return judgeSched(res, v), res.Steps
+}
+
+// schedBindSwap: a BIND call completes successfully while the refresh of its channel concludes (the replacement
+// becomes READY). Whatever the interleaving, the key is bound to that channel afterwards: a BOUND call for it is
+// placed there, on the replacement connection, regardless of load (C01 "across a transparent connection refresh of
+// that channel"; the take-over carries the bound keys, C07).
+func schedBindSwap(p *SchedProg) (string, int) {
+	e, err := newPoolEnv(fmt.Sprintf(`{"channelPool":{"minSize":2,"maxSize":2,"unresponsiveDetectionMs":1,"unresponsiveCalls":1},%s}`, schedMethods), 2, true)
+	if err != nil {
+		return "C17|" + err.Error(), 0
+	}
+	e.bringUpAll()
+	pk := e.readyPickers()
+	if len(pk) == 0 {
+		return "", 0
+	}
+	cur := pk[len(pk)-1]
+	// a plain call with an expired deadline: its channel X will be refreshed
+	dctx, dcancel := context.WithDeadline(context.Background(), time.Now().Add(-time.Second))
+	defer dcancel()
+	d, err := cur.Pick(balancer.PickInfo{Ctx: dctx, FullMethodName: "/plain"})
+	if err != nil {
+		return "C02|setup pick failed: " + err.Error(), 0
+	}
+	x := d.SubConn.(*csc)
+	// make the other channel busier, so that an unknown key would go to it... no: so that X is NOT the least loaded
+	// when the BOUND call comes (it must go to X because of the key, not because of load)
+	time.Sleep(2500 * time.Microsecond)
+	me := gid()
+	e.cc.doneConn.Store(me, x)
+	d.Done(balancer.DoneInfo{Err: deErr}) // starts the refresh of X (replacement pending)
+	e.cc.doneConn.Delete(me)
+	repl := e.popPending()
+	if repl == nil {
+		return "C07|setup: the deadline-exceeded completion did not start a refresh", 0
+	}
+	// a BIND call placed on X (the least loaded channel is X or the other: insist on X by loading the other first)
+	var held []balancer.PickResult
+	var bind balancer.PickResult
+	bctx := ictx(context.Background(), &cmsg{}, &cmsg{Key: "kx", Keys: []string{"kx"}})
+	for i := 0; i < 4; i++ {
+		r, err := cur.Pick(balancer.PickInfo{Ctx: bctx, FullMethodName: "/bind"})
+		if err != nil {
+			return "C01|setup bind pick failed: " + err.Error(), 0
+		}
+		if r.SubConn.(*csc).slot == x.slot {
+			bind = r
+			break
+		}
+		held = append(held, r) // a BIND on the other channel stays open (and is never completed with success)
+	}
+	defer func() {
+		for _, r := range held {
+			r.Done(balancer.DoneInfo{Err: fmt.Errorf("aborted")})
+		}
+	}()
+	if bind.Done == nil {
+		return "", 0
+	}
+	s := NewSched()
+	s.Go("bind-completion", func() { bind.Done(balancer.DoneInfo{}) })
+	s.Go("take-over", func() {
+		if p.Extra%2 == 1 {
+			e.rep(repl, connectivity.Connecting)
+		}
+		e.rep(repl, connectivity.Ready)
+	})
+	if (p.Extra/2)%2 == 1 {
+		s.Go("plain-pick", func() {
+			if r, err := cur.Pick(balancer.PickInfo{Ctx: context.Background(), FullMethodName: "/plain"}); err == nil {
+				r.Done(balancer.DoneInfo{})
+			}
+		})
+	}
+	res, v := p.run(s, 600, func() string { return violationOf(e.cc) })
+	p.Trace = s.Trace
+	s.Drain()
+	if v == "" && res.Deadlock == "" && res.Panic == "" && res.Steps < 600 {
+		for _, r := range held {
+			r.Done(balancer.DoneInfo{Err: fmt.Errorf("aborted")})
+		}
+		held = nil
+		pk = e.readyPickers()
+		if len(pk) > 0 {
+			// two BOUND calls, the first stays open: if the key is not bound the second goes to the other (idle) channel
+			kctx := ictx(context.Background(), &cmsg{Key: "kx"}, &cmsg{})
+			var open []balancer.PickResult
+			for i := 0; i < 2 && v == ""; i++ {
+				r, err := pk[len(pk)-1].Pick(balancer.PickInfo{Ctx: kctx, FullMethodName: "/bound"})
+				switch {
+				case err != nil:
+					v = fmt.Sprintf("C01,C07|after a BIND for key kx completed on channel %d while its refresh concluded, a BOUND call for kx gets %v (both channels READY)", x.slot, err)
+				case r.SubConn.(*csc).slot != x.slot || r.SubConn.(*csc) != repl:
+					v = fmt.Sprintf("C01,C07|a BIND for key kx completed on channel %d while its refresh concluded; BOUND call #%d for kx is placed on %v (channel %d), want the replacement connection %v of channel %d", x.slot, i+1, r.SubConn, r.SubConn.(*csc).slot, repl, x.slot)
+				}
+				if err == nil {
+					open = append(open, r)
+				}
+			}
+			for _, r := range open {
+				r.Done(balancer.DoneInfo{})
+			}
+		}
 	}
 	return judgeSched(res, v), res.Steps
 }
